@@ -25,7 +25,15 @@ CHECK = Check(
           "the same type), the first Loop again, Get - each grouped (three forms + every step alone on fresh objects; "
           "observation: per step and form, answer inside the history = answer alone, every object of the history dumps as "
           "before the first step and every map key is still found by a lookup) and once in one form against the model's "
-          "answers (Model/ApiSeq.run); distinct = distinct input text, all non-trivial."),
+          "answers (Model/ApiSeq.brun); per value in which a GetTo stores an answer: one HISTORY of GetTo calls that share ONE "
+          "caller-owned RESULT buffer (*any, the caller's sentinel in it at the start) - answers of the same type one after "
+          "the other (first a reference INTO the object: a struct field, then references to local copies: a map value, an "
+          "element of builtin type; up to two types), one call that stores nothing in between, then a reference into the "
+          "object followed by the same type out of a SECOND object of the same type, out of a PARTNER object of another "
+          "unit, and a reference into a partner followed by the same type out of the object - grouped (three forms + every "
+          "step alone; a step that stores nothing alone must leave in the buffer the very pointer it found there; every "
+          "object of the history dumped after every step) and once in one form against the model's answers (what the "
+          "buffer denotes after every step); distinct = distinct input text, all non-trivial."),
     assumptions=["'never modifies the value it reads' is observed as: the canonical dump (no capacities, no addresses) of every "
                  "argument is the same before and after every call; writes into spare capacity or that restore the old "
                  "content would not be seen",
@@ -35,9 +43,12 @@ CHECK = Check(
                  "the generated code has no store through a read argument is established by the stream, not by a theorem",
                  "Set by value (writes into a copy; nested maps and slices are shared) is outside the property and not run",
                  "histories: strings of the harness-built objects are private heap copies (a store into a key is an observable "
-                 "change, not a fault); the caller's buffers are not part of the model's state (the Loop models never read the "
-                 "key buffer): that the code neither depends on old buffer content nor lets a buffer share memory with an "
-                 "object is observed by the history cases, for the histories enumerated"],
+                 "change, not a fault); the caller's KEY buffer is not part of the model's state (the Loop models never read the "
+                 "key buffer): that the code neither depends on old key-buffer content nor lets that buffer share memory with "
+                 "an object is observed by the history cases, for the histories enumerated; the caller's RESULT buffer is part "
+                 "of the state (Model/ApiSeq.brun): its content is a reference that records the value of its place when it was "
+                 "made, faithful because no step of a read history writes (C12_read_history_buffer); pointer levels of the "
+                 "stored reference are not modelled"],
 )
 
 MANIFEST = {
@@ -51,9 +62,13 @@ MANIFEST = {
              "refused per operation (no effect / unsupported-type error / false) in every argument position; nil pointer "
              "arguments are handled like the nil interface and no header panics (after four fix: commits); a history of read "
              "calls of any length over any store of objects leaves every object as it was, every step answers what the call "
-             "answers alone, and the answers coincide in the three forms. Correspondence: every "
+             "answers alone, and the answers coincide in the three forms - also when the GetTo steps of the history share one "
+             "caller-owned result buffer that holds the answer of the step before (the emitted GetTo only ever overwrites "
+             "*buf, by induction on the node tree: with any buffer content it answers what it answers with an empty buffer, "
+             "nothing is read from or stored through what the buffer holds). Correspondence: every "
              "grouped case runs the real generated methods in the three forms and compares answers and argument dumps; history "
-             "cases run sequences of reads on one object with one shared key buffer."),
+             "cases run sequences of reads on one object with one shared key buffer, and sequences of GetTo calls on the "
+             "object, a second object and partner objects with one shared result buffer."),
     "note": ("Trusted: Coq kernel, extraction, Go harness (reflection value builder, proxy inspector, canonical dumps), Go compiler. "
              "The models take the value tree, so purity of reads is structural in the model; the stream's before/after dumps carry "
              "that clause for the real code. No axioms."),
